@@ -68,7 +68,11 @@ def canon_of_number(v):
         raise core.MachineryError("boolean where a number was expected")
     if isinstance(v, (int, np.integer)):
         return canon_of_decimal(D(int(v)))
-    f = float(v)
+    try:
+        f = float(v)
+    except (TypeError, ValueError):
+        # text where a number was expected: visible as a value no decimal of the exact domain equals
+        return {"neg": False, "digits": [9] * 3, "exp": 9997}
     if not math.isfinite(f):
         # outside every quantifier; make it visible as a value no finite decimal equals
         return {"neg": f < 0, "digits": [9] * 3, "exp": 9999 if f == f else 9998}
